@@ -933,12 +933,155 @@ Theorem cond_machine_correct : forall (fname : string) (t : list item),
 Proof. intros fname t Ht. exact (cond_machine_correct_fs [] fname t Ht). Qed.
 Print Assumptions cond_machine_correct.
 
-(** * The #if evaluator on 0 / 1 / ! / == *)
-Fixpoint nots (u : uexp) : nat :=
-  match u with UNot u' => S (nots u') | _ => O end.
+(** * The #if evaluator on integer constants, ! and == *)
 
-Lemma print_u_length : forall u, String.length (print_u u) = S (nots u).
-Proof. induction u as [| |u IHu]; simpl; [reflexivity | reflexivity | rewrite IHu; reflexivity]. Qed.
+(** ** decimal printing against [parse_c_int] *)
+
+(** decimal, no leading zero (the digits of [Base.Str.string_of_N], Rust's [{}]) *)
+Definition print_dec (n : N) : string := string_of_N n.
+
+Fixpoint pow10c (k : nat) : N :=
+  match k with O => 1%N | S k' => (10 * pow10c k')%N end.
+
+Lemma dec_digits_step : forall f n acc,
+  dec_digits (S f) n acc =
+    if N.eqb (n / 10) 0
+    then String (ascii_of_N (48 + n mod 10)) acc
+    else dec_digits f (n / 10)%N (String (ascii_of_N (48 + n mod 10)) acc).
+Proof. reflexivity. Qed.
+
+Lemma dec_char : forall d, (d < 10)%N -> N_of_ascii (ascii_of_N (48 + d)) = (48 + d)%N.
+Proof. intros d Hd. apply N_ascii_embedding. lia. Qed.
+
+Lemma dec_char_digit : forall d, (d < 10)%N -> is_digit (ascii_of_N (48 + d)) = true.
+Proof.
+  intros d Hd. unfold is_digit. cbv zeta. rewrite (dec_char d Hd).
+  apply andb_true_iff. split; apply N.leb_le; lia.
+Qed.
+
+Lemma digit_val_dec : forall d, (d < 10)%N -> digit_val (ascii_of_N (48 + d)) = Some d.
+Proof.
+  intros d Hd. unfold digit_val. cbv zeta. rewrite (dec_char d Hd).
+  replace ((48 <=? 48 + d)%N) with true by (symmetry; apply N.leb_le; lia).
+  replace ((48 + d <=? 57)%N) with true by (symmetry; apply N.leb_le; lia).
+  cbn [andb]. f_equal. lia.
+Qed.
+
+Lemma parse_radix_dec_digit : forall d r acc, (d < 10)%N ->
+  parse_radix_aux 10 (String (ascii_of_N (48 + d)) r) acc = parse_radix_aux 10 r (acc * 10 + d)%N.
+Proof.
+  intros d r acc Hd. cbn [parse_radix_aux]. rewrite (digit_val_dec d Hd).
+  replace ((d <? 10)%N) with true by (symmetry; apply N.ltb_lt; exact Hd). reflexivity.
+Qed.
+
+Lemma parse_radix_dec_digits : forall f n acc, (n < pow10c f)%N ->
+  parse_radix_aux 10 (dec_digits f n acc) 0%N = parse_radix_aux 10 acc n.
+Proof.
+  induction f as [|f IH]; intros n acc Hn.
+  - cbn [pow10c] in Hn. cbn [dec_digits]. f_equal. lia.
+  - rewrite dec_digits_step.
+    assert (Hd : (n mod 10 < 10)%N) by (apply N.mod_lt; lia).
+    assert (Hdm : n = (10 * (n / 10) + n mod 10)%N) by (apply N.div_mod; lia).
+    destruct (N.eqb (n / 10) 0) eqn:E.
+    + apply N.eqb_eq in E. rewrite parse_radix_dec_digit by exact Hd. f_equal. lia.
+    + rewrite IH.
+      * rewrite parse_radix_dec_digit by exact Hd. f_equal. lia.
+      * apply N.div_lt_upper_bound; [lia|]. cbn [pow10c] in Hn. exact Hn.
+Qed.
+
+Lemma pos_lt_pow10c : forall p, (Npos p < pow10c (Pos.size_nat p))%N.
+Proof.
+  induction p as [p IH|p IH|]; cbn [Pos.size_nat pow10c].
+  - change (N.pos p~1) with (2 * N.pos p + 1)%N. lia.
+  - change (N.pos p~0) with (2 * N.pos p)%N. lia.
+  - lia.
+Qed.
+
+Lemma N_lt_pow10c : forall n, (n < pow10c (S (N.size_nat n)))%N.
+Proof.
+  intros [|p]; cbn [N.size_nat pow10c]; [lia|].
+  pose proof (pos_lt_pow10c p) as Hp. lia.
+Qed.
+
+Lemma parse_radix_print_dec : forall n, parse_radix_aux 10 (print_dec n) 0%N = Some n.
+Proof.
+  intros n. unfold print_dec, string_of_N.
+  rewrite parse_radix_dec_digits by apply N_lt_pow10c. reflexivity.
+Qed.
+
+(** the leading digit of a positive number is not 0 *)
+Lemma dec_digits_lead : forall f n acc, (0 < n)%N -> (n < pow10c f)%N ->
+  exists d r, dec_digits f n acc = String (ascii_of_N (48 + d)) r /\ (0 < d)%N /\ (d < 10)%N.
+Proof.
+  induction f as [|f IH]; intros n acc Hpos Hn.
+  - cbn [pow10c] in Hn. lia.
+  - rewrite dec_digits_step.
+    assert (Hd : (n mod 10 < 10)%N) by (apply N.mod_lt; lia).
+    assert (Hdm : n = (10 * (n / 10) + n mod 10)%N) by (apply N.div_mod; lia).
+    destruct (N.eqb (n / 10) 0) eqn:E.
+    + apply N.eqb_eq in E. exists (n mod 10)%N, acc. split; [reflexivity|]. split; lia.
+    + apply N.eqb_neq in E. apply IH; [lia|].
+      apply N.div_lt_upper_bound; [lia|]. cbn [pow10c] in Hn. exact Hn.
+Qed.
+
+Lemma print_dec_pos : forall n, (0 < n)%N ->
+  exists d r, print_dec n = String (ascii_of_N (48 + d)) r /\ (0 < d)%N /\ (d < 10)%N.
+Proof.
+  intros n Hn. unfold print_dec, string_of_N.
+  apply dec_digits_lead; [exact Hn | apply N_lt_pow10c].
+Qed.
+
+Lemma print_dec_shape : forall n, exists a w, print_dec n = String a w /\ is_digit a = true.
+Proof.
+  intros n. destruct (N.eq_dec n 0) as [Hz|Hnz].
+  - subst n. exists "0"%char, "". split; reflexivity.
+  - destruct (print_dec_pos n) as [d [r [Hs [Hd0 Hd9]]]]; [lia|].
+    exists (ascii_of_N (48 + d)), r. split; [exact Hs | exact (dec_char_digit d Hd9)].
+Qed.
+
+Lemma dec_digits_all_digits : forall f n acc,
+  all_chars is_digit acc = true -> all_chars is_digit (dec_digits f n acc) = true.
+Proof.
+  induction f as [|f IH]; intros n acc Hacc; [exact Hacc|].
+  rewrite dec_digits_step.
+  assert (Hd : (n mod 10 < 10)%N) by (apply N.mod_lt; lia).
+  destruct (N.eqb (n / 10) 0); [|apply IH];
+    cbn [all_chars]; rewrite (dec_char_digit _ Hd), Hacc; reflexivity.
+Qed.
+
+Lemma print_dec_all_digits : forall n, all_chars is_digit (print_dec n) = true.
+Proof. intros n. unfold print_dec, string_of_N. apply dec_digits_all_digits. reflexivity. Qed.
+
+Lemma lead_not_zero : forall d, (0 < d)%N -> (d < 10)%N ->
+  Ascii.eqb "0" (ascii_of_N (48 + d)) = false.
+Proof.
+  intros d Hd0 Hd9. apply Ascii.eqb_neq. intros H.
+  apply (f_equal N_of_ascii) in H. rewrite (dec_char d Hd9) in H.
+  assert (H0 : N_of_ascii "0" = 48%N) by reflexivity. rewrite H0 in H. lia.
+Qed.
+
+Lemma starts_with_0_cons : forall p a r,
+  Ascii.eqb "0" a = false -> starts_with (String "0" p) (String a r) = false.
+Proof. intros p a r H. cbn [starts_with]. rewrite H. reflexivity. Qed.
+
+(** a printed decimal is never taken for an octal or a hexadecimal constant *)
+Theorem parse_c_int_print_dec : forall n, (n < 2 ^ 63)%N -> parse_c_int (print_dec n) = Some n.
+Proof.
+  intros n Hn. change (2 ^ 63)%N with 9223372036854775808%N in Hn.
+  pose proof (parse_radix_print_dec n) as Hp.
+  destruct (N.eq_dec n 0) as [Hz|Hnz].
+  - subst n. reflexivity.
+  - destruct (print_dec_pos n) as [d [r [Hs [Hd0 Hd9]]]]; [lia|].
+    pose proof (lead_not_zero d Hd0 Hd9) as Hne.
+    rewrite Hs in Hp. rewrite Hs. unfold parse_c_int.
+    rewrite !(starts_with_0_cons _ _ _ Hne). rewrite andb_false_r. cbn [orb].
+    unfold parse_radix. rewrite Hp.
+    replace ((n <? 9223372036854775808)%N) with true by (symmetry; apply N.ltb_lt; exact Hn).
+    reflexivity.
+Qed.
+Print Assumptions parse_c_int_print_dec.
+
+(** ** terms *)
 
 Lemma take_word_stop : forall rest, boundary_after rest = true -> take_word rest = ("", rest).
 Proof.
@@ -946,44 +1089,302 @@ Proof.
   simpl in *. apply negb_true_iff in Hb. rewrite Hb. reflexivity.
 Qed.
 
-Lemma eval_term_0 : forall rest, boundary_after rest = true -> eval_term ("0" ++ rest) = EvOk false rest.
+Lemma digit_is_word : forall a, is_digit a = true -> is_word a = true.
+Proof. intros a H. unfold is_word, is_ident_char. rewrite H. reflexivity. Qed.
+
+Lemma digit_not_ws : forall a, is_digit a = true -> is_ws a = false.
 Proof.
-  intros rest Hb. unfold eval_term.
-  change (trim_start ("0" ++ rest)) with (String "0" rest).
-  change (take_word (String "0" rest)) with (let '(w, t) := take_word rest in (String "0" w, t)).
-  rewrite (take_word_stop rest Hb). reflexivity.
+  intros a H. unfold is_digit in H. unfold is_ws. cbv zeta in *.
+  apply andb_true_iff in H. destruct H as [H1 H2].
+  apply N.leb_le in H1. apply N.leb_le in H2.
+  apply orb_false_iff. split.
+  - apply N.eqb_neq. lia.
+  - apply andb_false_iff. right. apply N.leb_gt. lia.
 Qed.
 
-Lemma eval_term_1 : forall rest, boundary_after rest = true -> eval_term ("1" ++ rest) = EvOk true rest.
+Lemma take_word_digits : forall s rest,
+  all_chars is_digit s = true -> boundary_after rest = true -> take_word (s ++ rest) = (s, rest).
 Proof.
-  intros rest Hb. unfold eval_term.
-  change (trim_start ("1" ++ rest)) with (String "1" rest).
-  change (take_word (String "1" rest)) with (let '(w, t) := take_word rest in (String "1" w, t)).
-  rewrite (take_word_stop rest Hb). reflexivity.
+  induction s as [|a s IHs]; intros rest Hs Hb.
+  - exact (take_word_stop rest Hb).
+  - cbn [all_chars] in Hs. apply andb_true_iff in Hs. destruct Hs as [Ha Hs].
+    cbn [append take_word]. rewrite (digit_is_word a Ha), (IHs rest Hs Hb). reflexivity.
 Qed.
 
-Lemma eval_unary_print : forall u fuel neg rest,
+(** a decimal constant below 2^63 followed by a word boundary evaluates to its value *)
+Lemma eval_term_dec : forall n rest, (n < 2 ^ 63)%N -> boundary_after rest = true ->
+  eval_term (print_dec n ++ rest) = IvOk n rest.
+Proof.
+  intros n rest Hn Hb.
+  destruct (print_dec_shape n) as [a [w [Hs Ha]]].
+  pose proof (print_dec_all_digits n) as Hall.
+  pose proof (parse_c_int_print_dec n Hn) as Hp.
+  rewrite Hs in Hall, Hp. rewrite Hs. unfold eval_term. cbv zeta.
+  cbn [append trim_start]. rewrite (digit_not_ws a Ha).
+  change (String a (w ++ rest)) with (String a w ++ rest).
+  rewrite (take_word_digits _ rest Hall Hb). cbv beta iota.
+  rewrite Ha, Hp. reflexivity.
+Qed.
+
+Lemma eval_term_0 : forall rest, boundary_after rest = true -> eval_term ("0" ++ rest) = IvOk 0 rest.
+Proof. intros rest Hb. exact (eval_term_dec 0 rest eq_refl Hb). Qed.
+
+Lemma eval_term_1 : forall rest, boundary_after rest = true -> eval_term ("1" ++ rest) = IvOk 1 rest.
+Proof. intros rest Hb. exact (eval_term_dec 1 rest eq_refl Hb). Qed.
+
+(** ** the numeric expression language: constants, prefix !, infix == (left associative) *)
+Inductive uexp_n := UNum (n : N) | UNotN (u : uexp_n).
+Inductive nexp := NU (u : uexp_n) | NEq (e : nexp) (u : uexp_n).     (* e == u *)
+
+Fixpoint print_un (u : uexp_n) : string :=
+  match u with
+  | UNum n => print_dec n
+  | UNotN u' => "!" ++ print_un u'
+  end.
+Fixpoint print_n (e : nexp) : string :=
+  match e with
+  | NU u => print_un u
+  | NEq e' u => print_n e' ++ " == " ++ print_un u
+  end.
+
+(** the C value: [!x] is 1 when x is 0, else 0; [a == b] is 1 when equal, else 0 *)
+Fixpoint value_un (u : uexp_n) : N :=
+  match u with
+  | UNum n => n
+  | UNotN u' => b2n (N.eqb (value_un u') 0)
+  end.
+Fixpoint value_n (e : nexp) : N :=
+  match e with
+  | NU u => value_un u
+  | NEq e' u => b2n (N.eqb (value_n e') (value_un u))
+  end.
+
+(** every constant fits an i64 *)
+Fixpoint small_un (u : uexp_n) : Prop :=
+  match u with
+  | UNum n => (n < 2 ^ 63)%N
+  | UNotN u' => small_un u'
+  end.
+Fixpoint small_n (e : nexp) : Prop :=
+  match e with
+  | NU u => small_un u
+  | NEq e' u => small_n e' /\ small_un u
+  end.
+
+(** what the pending [!]s do to a value *)
+Definition apply_nots (ns : option bool) (v : N) : N :=
+  match ns with
+  | None => v
+  | Some true => b2n (N.eqb v 0)
+  | Some false => b2n (negb (N.eqb v 0))
+  end.
+
+Fixpoint nots_n (u : uexp_n) : nat :=
+  match u with UNotN u' => S (nots_n u') | UNum _ => O end.
+
+Lemma print_un_length : forall u, nots_n u < String.length (print_un u).
+Proof.
+  induction u as [n|u IHu].
+  - cbn [nots_n print_un]. destruct (print_dec_shape n) as [a [w [Hs _]]]. rewrite Hs.
+    cbn [String.length]. lia.
+  - cbn [nots_n print_un append String.length]. lia.
+Qed.
+
+Lemma eval_unary_digit : forall f a r ns, is_digit a = true ->
+  eval_unary (S f) (String a r) ns =
+  match eval_term (String a r) with
+  | IvOk v rest => IvOk (apply_nots ns v) rest
+  | err => err
+  end.
+Proof.
+  intros f [b0 b1 b2 b3 b4 b5 b6 b7] r ns Hd.
+  destruct b0, b1, b2, b3, b4, b5, b6, b7;
+    try (exfalso; vm_compute in Hd; discriminate Hd); reflexivity.
+Qed.
+
+Lemma eval_unary_print_n : forall u fuel ns rest,
+    small_un u -> boundary_after rest = true -> nots_n u < fuel ->
+    eval_unary fuel (print_un u ++ rest) ns = IvOk (apply_nots ns (value_un u)) rest.
+Proof.
+  induction u as [n|u IHu]; intros fuel ns rest Hs Hb Hf;
+    (destruct fuel as [|f]; [cbn [nots_n] in Hf; lia|]).
+  - cbn [print_un small_un value_un] in *.
+    destruct (print_dec_shape n) as [a [w [Hsh Ha]]].
+    pose proof (eval_term_dec n rest Hs Hb) as Ht.
+    rewrite Hsh in Ht. rewrite Hsh. cbn [append] in *.
+    rewrite (eval_unary_digit f a _ ns Ha), Ht. reflexivity.
+  - cbn [print_un value_un small_un nots_n] in *.
+    change (eval_unary (S f) (("!" ++ print_un u) ++ rest) ns)
+      with (eval_unary f (print_un u ++ rest)
+                       (match ns with None => Some true | Some odd => Some (negb odd) end)).
+    rewrite (IHu f _ rest Hs Hb) by lia.
+    f_equal. unfold apply_nots.
+    destruct ns as [[|]|]; cbn [negb]; destruct (N.eqb (value_un u) 0); reflexivity.
+Qed.
+
+(** ** chains of == *)
+Fixpoint head_n (e : nexp) : uexp_n :=
+  match e with NU u => u | NEq e' _ => head_n e' end.
+Fixpoint chain_n (e : nexp) : string :=
+  match e with NU _ => "" | NEq e' u => chain_n e' ++ " == " ++ print_un u end.
+Fixpoint fold_val_n (e : nexp) (r : N) : N :=
+  match e with NU _ => r | NEq e' u => b2n (N.eqb (fold_val_n e' r) (value_un u)) end.
+Fixpoint neqs_n (e : nexp) : nat :=
+  match e with NU _ => O | NEq e' _ => S (neqs_n e') end.
+
+Lemma print_chain_n : forall e, print_n e = print_un (head_n e) ++ chain_n e.
+Proof.
+  induction e as [u|e IHe u]; cbn [print_n head_n chain_n].
+  - rewrite app_empty_r. reflexivity.
+  - rewrite IHe, app_assoc_s. reflexivity.
+Qed.
+
+Lemma value_fold_n : forall e, value_n e = fold_val_n e (value_un (head_n e)).
+Proof.
+  induction e as [u|e IHe u]; cbn [value_n fold_val_n head_n]; [reflexivity | rewrite IHe; reflexivity].
+Qed.
+
+Lemma small_head_n : forall e, small_n e -> small_un (head_n e).
+Proof.
+  induction e as [u|e IHe u]; cbn [small_n head_n]; intros Hs; [exact Hs|].
+  destruct Hs as [Hse _]. exact (IHe Hse).
+Qed.
+
+Lemma chain_boundary_n : forall e x, boundary_after x = true -> boundary_after (chain_n e ++ x) = true.
+Proof.
+  induction e as [u|e IHe u]; intros x Hx; cbn [chain_n]; [exact Hx|].
+  rewrite app_assoc_s. apply IHe. reflexivity.
+Qed.
+
+Lemma chain_length_n : forall e, neqs_n e <= String.length (chain_n e).
+Proof.
+  induction e as [u|e IHe u]; cbn [neqs_n chain_n]; [cbn [String.length]; lia|].
+  rewrite length_app_s. cbn [append String.length]. lia.
+Qed.
+
+Lemma eq_loop_chain_n : forall e fuel r rest,
+    small_n e -> boundary_after rest = true -> neqs_n e < fuel ->
+    eval_eq_loop fuel r (chain_n e ++ rest) = eval_eq_loop (fuel - neqs_n e) (fold_val_n e r) rest.
+Proof.
+  induction e as [u|e IHe u]; intros fuel r rest Hs Hb Hf.
+  - cbn [chain_n neqs_n fold_val_n append]. rewrite Nat.sub_0_r. reflexivity.
+  - cbn [small_n] in Hs. destruct Hs as [Hse Hsu]. cbn [neqs_n] in Hf.
+    cbn [chain_n]. rewrite !app_assoc_s.
+    rewrite (IHe fuel r (" == " ++ print_un u ++ rest) Hse eq_refl) by lia.
+    destruct (fuel - neqs_n e) as [|f'] eqn:Hfu; [lia|].
+    replace (fuel - neqs_n (NEq e u)) with f' by (cbn [neqs_n]; lia).
+    change (eval_eq_loop (S f') (fold_val_n e r) (" == " ++ print_un u ++ rest))
+      with (match eval_unary (S (String.length ("== " ++ print_un u ++ rest)))
+                             (print_un u ++ rest) None with
+            | IvOk v rest0 => eval_eq_loop f' (b2n (N.eqb (fold_val_n e r) v)) rest0
+            | err => err
+            end).
+    rewrite (eval_unary_print_n u _ None rest Hsu Hb).
+    + reflexivity.
+    + cbn [append String.length]. rewrite length_app_s.
+      pose proof (print_un_length u) as Hl. lia.
+Qed.
+
+Lemma eval_eq_loop_end : forall k r, eval_eq_loop (S k) r "" = IvOk r "".
+Proof. reflexivity. Qed.
+
+(** the evaluator is C's on constants below 2^63 (printed in decimal), ! and == *)
+Theorem evaluate_int_correct : forall e : nexp,
+    small_n e -> evaluate (print_n e) = EvOk (negb (N.eqb (value_n e) 0)) "".
+Proof.
+  intros e Hs. unfold evaluate. rewrite print_chain_n.
+  rewrite (eval_unary_print_n (head_n e) _ None (chain_n e)).
+  - rewrite <- (app_empty_r (chain_n e)) at 2.
+    rewrite (eq_loop_chain_n e _ _ "" Hs eq_refl).
+    + pose proof (chain_length_n e) as Hl.
+      destruct (S (String.length (chain_n e)) - neqs_n e) as [|k] eqn:Hk; [lia|].
+      rewrite eval_eq_loop_end, value_fold_n. reflexivity.
+    + pose proof (chain_length_n e) as Hl. lia.
+  - exact (small_head_n e Hs).
+  - rewrite <- (app_empty_r (chain_n e)). apply chain_boundary_n. reflexivity.
+  - rewrite length_app_s. pose proof (print_un_length (head_n e)) as Hl. lia.
+Qed.
+Print Assumptions evaluate_int_correct.
+
+(** non-vacuity: a chain with every construct *)
+Example evaluate_int_example :
+  small_n (NEq (NEq (NU (UNotN (UNotN (UNum 2)))) (UNum 1)) (UNotN (UNum 9223372036854775807)))
+  /\ print_n (NEq (NEq (NU (UNotN (UNotN (UNum 2)))) (UNum 1)) (UNotN (UNum 9223372036854775807)))
+     = "!!2 == 1 == !9223372036854775807"
+  /\ value_n (NEq (NEq (NU (UNotN (UNotN (UNum 2)))) (UNum 1)) (UNotN (UNum 9223372036854775807)))
+     = 0%N.
+Proof. vm_compute. repeat split; reflexivity. Qed.
+Print Assumptions evaluate_int_example.
+
+(** numbers are C integer constants: any non-zero value holds, == compares values, ! gives 0 or 1,
+    hexadecimal and octal constants are read as such, malformed ones are rejected *)
+Example evaluate_numbers :
+  evaluate "2" = EvOk true "" /\ evaluate "2 == 3" = EvOk false ""
+  /\ evaluate "!2" = EvOk false "" /\ evaluate "!!2 == 1" = EvOk true ""
+  /\ evaluate "0x10 == 16" = EvOk true "" /\ evaluate "010 == 8" = EvOk true ""
+  /\ evaluate "08" = EvErr "Invalid number"
+  /\ evaluate "9223372036854775807" = EvOk true ""
+  /\ evaluate "9223372036854775808" = EvErr "Invalid number".
+Proof. vm_compute. repeat split; reflexivity. Qed.
+Print Assumptions evaluate_numbers.
+
+(** * The #if evaluator on 0 / 1 / ! / == : the boolean reading coincides with C's *)
+Fixpoint nots (u : uexp) : nat :=
+  match u with UNot u' => S (nots u') | _ => O end.
+
+Lemma print_u_length : forall u, String.length (print_u u) = S (nots u).
+Proof. induction u as [| |u IHu]; simpl; [reflexivity | reflexivity | rewrite IHu; reflexivity]. Qed.
+
+(** the boolean language inside the numeric one *)
+Fixpoint u2n (u : uexp) : uexp_n :=
+  match u with U0 => UNum 0 | U1 => UNum 1 | UNot u' => UNotN (u2n u') end.
+Fixpoint b2ne (e : bexp) : nexp :=
+  match e with BU u => NU (u2n u) | BEq e' u => NEq (b2ne e') (u2n u) end.
+
+Lemma print_u2n : forall u, print_un (u2n u) = print_u u.
+Proof.
+  induction u as [| |u IHu]; [reflexivity | reflexivity |].
+  cbn [u2n print_un print_u]. rewrite IHu. reflexivity.
+Qed.
+
+Lemma print_b2ne : forall e, print_n (b2ne e) = print e.
+Proof.
+  induction e as [u|e IHe u]; cbn [b2ne print_n print].
+  - apply print_u2n.
+  - rewrite IHe, print_u2n. reflexivity.
+Qed.
+
+Lemma value_u2n : forall u, value_un (u2n u) = b2n (value_u u).
+Proof.
+  induction u as [| |u IHu]; [reflexivity | reflexivity |].
+  cbn [u2n value_un value_u]. rewrite IHu. destruct (value_u u); reflexivity.
+Qed.
+
+Lemma value_b2ne : forall e, value_n (b2ne e) = b2n (value e).
+Proof.
+  induction e as [u|e IHe u]; cbn [b2ne value_n value].
+  - apply value_u2n.
+  - rewrite IHe, value_u2n. destruct (value e), (value_u u); reflexivity.
+Qed.
+
+Lemma small_u2n : forall u, small_un (u2n u).
+Proof. induction u as [| |u IHu]; [reflexivity | reflexivity | exact IHu]. Qed.
+
+Lemma small_b2ne : forall e, small_n (b2ne e).
+Proof.
+  induction e as [u|e IHe u]; cbn [b2ne small_n]; [apply small_u2n|].
+  split; [exact IHe | apply small_u2n].
+Qed.
+
+Lemma nots_u2n : forall u, nots_n (u2n u) = nots u.
+Proof. induction u as [| |u IHu]; [reflexivity | reflexivity | cbn [u2n nots_n nots]; rewrite IHu; reflexivity]. Qed.
+
+Lemma eval_unary_print : forall u fuel ns rest,
     boundary_after rest = true -> nots u < fuel ->
-    eval_unary fuel (print_u u ++ rest) neg = EvOk (xorb neg (value_u u)) rest.
+    eval_unary fuel (print_u u ++ rest) ns = IvOk (apply_nots ns (b2n (value_u u))) rest.
 Proof.
-  induction u as [| |u IHu]; intros fuel neg rest Hb Hf;
-    (destruct fuel as [|f]; [simpl in Hf; lia|]).
-  - change (eval_unary (S f) (print_u U0 ++ rest) neg)
-      with (match eval_term ("0" ++ rest) with
-            | EvOk b rest0 => EvOk (xorb neg b) rest0
-            | err => err
-            end).
-    rewrite (eval_term_0 rest Hb). reflexivity.
-  - change (eval_unary (S f) (print_u U1 ++ rest) neg)
-      with (match eval_term ("1" ++ rest) with
-            | EvOk b rest0 => EvOk (xorb neg b) rest0
-            | err => err
-            end).
-    rewrite (eval_term_1 rest Hb). reflexivity.
-  - change (eval_unary (S f) (print_u (UNot u) ++ rest) neg)
-      with (eval_unary f (print_u u ++ rest) (negb neg)).
-    rewrite (IHu f (negb neg) rest Hb); [|simpl in Hf; lia].
-    simpl. destruct neg, (value_u u); reflexivity.
+  intros u fuel ns rest Hb Hf. rewrite <- print_u2n, <- value_u2n.
+  apply eval_unary_print_n; [apply small_u2n | exact Hb | rewrite nots_u2n; exact Hf].
 Qed.
 
 Fixpoint head_u (e : bexp) : uexp :=
@@ -1017,46 +1418,36 @@ Proof.
   rewrite length_app_s. simpl. lia.
 Qed.
 
+Lemma chain_b2ne : forall e, chain_n (b2ne e) = chain e.
+Proof.
+  induction e as [u|e IHe u]; cbn [b2ne chain_n chain]; [reflexivity|].
+  rewrite IHe, print_u2n. reflexivity.
+Qed.
+
+Lemma neqs_b2ne : forall e, neqs_n (b2ne e) = neqs e.
+Proof. induction e as [u|e IHe u]; cbn [b2ne neqs_n neqs]; [reflexivity | rewrite IHe; reflexivity]. Qed.
+
+Lemma fold_val_b2ne : forall e r, fold_val_n (b2ne e) (b2n r) = b2n (fold_val e r).
+Proof.
+  induction e as [u|e IHe u]; intros r; cbn [b2ne fold_val_n fold_val]; [reflexivity|].
+  rewrite IHe, value_u2n. destruct (fold_val e r), (value_u u); reflexivity.
+Qed.
+
 Lemma eq_loop_chain : forall e fuel r rest,
     boundary_after rest = true -> neqs e < fuel ->
-    eval_eq_loop fuel r (chain e ++ rest) = eval_eq_loop (fuel - neqs e) (fold_val e r) rest.
+    eval_eq_loop fuel (b2n r) (chain e ++ rest) = eval_eq_loop (fuel - neqs e) (b2n (fold_val e r)) rest.
 Proof.
-  induction e as [u|e IHe u]; intros fuel r rest Hb Hf.
-  - simpl. rewrite Nat.sub_0_r. reflexivity.
-  - cbn [chain]. rewrite !app_assoc_s.
-    rewrite (IHe fuel r (" == " ++ print_u u ++ rest) eq_refl); [|simpl in Hf; lia].
-    simpl in Hf. destruct (fuel - neqs e) as [|f'] eqn:Hfu; [lia|].
-    replace (fuel - neqs (BEq e u)) with f' by (simpl; lia).
-    change (eval_eq_loop (S f') (fold_val e r) (" == " ++ print_u u ++ rest))
-      with (match eval_unary (S (String.length ("== " ++ print_u u ++ rest)))
-                             (print_u u ++ rest) false with
-            | EvOk b rest0 => eval_eq_loop f' (xorb (fold_val e r) (negb b)) rest0
-            | err => err
-            end).
-    rewrite (eval_unary_print u _ false rest Hb).
-    + simpl. destruct (fold_val e r), (value_u u); reflexivity.
-    + simpl. rewrite length_app_s, print_u_length. lia.
+  intros e fuel r rest Hb Hf.
+  rewrite <- chain_b2ne, <- neqs_b2ne, <- fold_val_b2ne.
+  apply eq_loop_chain_n; [apply small_b2ne | exact Hb | rewrite neqs_b2ne; exact Hf].
 Qed.
 
 Theorem evaluate_bool_correct : forall e : bexp, evaluate (print e) = EvOk (value e) "".
 Proof.
-  intros e. unfold evaluate. rewrite print_chain.
-  rewrite (eval_unary_print (head_u e) _ false (chain e)).
-  - rewrite <- (app_empty_r (chain e)) at 2.
-    rewrite (eq_loop_chain e _ (xorb false (value_u (head_u e))) "" eq_refl).
-    + pose proof (chain_length e) as Hl.
-      destruct (S (String.length (chain e)) - neqs e) as [|k] eqn:Hk; [lia|].
-      simpl. rewrite value_fold. destruct (value_u (head_u e)); reflexivity.
-    + pose proof (chain_length e). lia.
-  - rewrite <- (app_empty_r (chain e)). apply chain_boundary. reflexivity.
-  - rewrite length_app_s, print_u_length. lia.
+  intros e. rewrite <- print_b2ne, (evaluate_int_correct (b2ne e) (small_b2ne e)), value_b2ne.
+  destruct (value e); reflexivity.
 Qed.
 Print Assumptions evaluate_bool_correct.
-
-(** the evaluator treats any number other than 1 as false (a deviation from C) *)
-Example evaluate_two_refuted : evaluate "2" = EvOk false "" /\ evaluate "2 == 3" = EvOk true "".
-Proof. vm_compute. split; reflexivity. Qed.
-Print Assumptions evaluate_two_refuted.
 
 (** conditions printed from the little expression language are legal conditions of a tree *)
 Lemma print_u_edge : forall u, edge_ok (print_u u) = true /\ edge_ok (rev_string (print_u u)) = true
